@@ -1,9 +1,10 @@
-/* One ares_send_query() of a fresh or retried request on a channel in an ARBITRARY valid state:
- * 1..2 servers with symbolic failure counters, 0..1 existing connection to the best server (UDP with symbolic
- * use count, or TCP) carrying 0..1 sibling request; every socket / cookie / serialisation failure possible;
- * sibling callbacks may re-enter ares_cancel().
- * Serves C01 (exactly-once, no use after release), C06 (transmission budget), C09 (server choice),
- * C10 (descriptor protocol, udp_max_queries), C07 (deadline registered). */
+/* Obligation O1: ONE level of ares_send_query() on a channel in an ARBITRARY valid state; nested
+ * ares_requeue_query() calls are replaced by their contract (rq_stub.c).
+ * State: 1..2 servers with symbolic failure counters, 0..1 existing connection to the best server (UDP with
+ * symbolic use count, or TCP) carrying 0..1 sibling request; every socket / cookie / serialisation failure
+ * possible; completion callbacks (of siblings requeued when the connection is torn down) may call ares_cancel().
+ * Serves C01 (exactly-once, no use after release), C06 (one transmission per level, try accounting),
+ * C09 (server choice), C10 (descriptor protocol, udp_max_queries), C07 (deadline registered). */
 #include "machine.h"
 
 #ifndef NSRV
@@ -15,84 +16,86 @@ void harness(void)
   ares_server_t *srv[2] = { NULL, NULL };
   ares_conn_t   *old    = NULL;
   ares_query_t  *q, *sib = NULL;
-  size_t         f0, f1 = 0, minf, i, writes0, tries0, budget;
+  size_t         f0, f1 = 0, minf, i, writes0, tries0;
   ares_status_t  st;
-  int            tok, sibtok = -1, existing, rotate;
+  int            tok, sibtok = -1, existing, rotate, k, q_requeued = 0;
   ares_server_t *best_first;
-  ares_socket_t  oldfd = -1;
-  size_t         old_total = 0;
 
   M_init();
-  M_ch.flags           = ARES_FLAG_STAYOPEN | (vp_bool() ? ARES_FLAG_USEVC : 0);
-  M_ch.tries           = vp_range(1, 2);
-  M_ch.udp_max_queries = vp_range(0, 2);
-  rotate               = vp_bool();
-  M_ch.rotate          = rotate ? ARES_TRUE : ARES_FALSE;
+  M_ch.flags               = ARES_FLAG_STAYOPEN | (USEVC ? ARES_FLAG_USEVC : 0);
+#if SIBLING
+  /* sibling jobs target exactly-once / use-after-release under re-entrant completion: policy knobs concrete */
+  M_ch.tries               = 2;
+  M_ch.udp_max_queries     = 0;
+  rotate                   = 0;
+#else
+  M_ch.tries               = vp_range(1, 3);
+  M_ch.udp_max_queries     = vp_range(0, 2);
+  rotate                   = vp_bool();
+#endif
+  M_ch.rotate              = rotate ? ARES_TRUE : ARES_FALSE;
   M_ch.server_retry_chance = 0; /* probes are exercised by the probe harness */
-  M_reenter_cancel     = 1;
-  f0 = vp_range(0, 2);
+  M_reenter_cancel         = SIBLING; /* re-entry matters when another request completes during this attempt */
+  f0     = vp_range(0, 2);
   srv[0] = world_add_server(&M_ch, 0, f0);
 #if NSRV == 2
-  f1 = vp_range(0, 2);
+  f1     = vp_range(0, 2);
   srv[1] = world_add_server(&M_ch, 1, f1);
 #endif
-  /* reference: fewest failures, first in configuration order */
   minf       = (NSRV == 2 && f1 < f0) ? f1 : f0;
   best_first = (NSRV == 2 && f1 < f0) ? srv[1] : srv[0];
 
-  existing = (int)vp_range(0, 2); /* 0 none, 1 UDP, 2 TCP: on the best server */
+  existing = EXISTING; /* 0 none, 1 UDP, 2 TCP: on the best server (concrete per job) */
   if (existing) {
-    old       = world_add_conn(&M_ch, best_first, existing == 2);
-    oldfd     = old->fd;
-    if (existing == 1) old->total_queries = vp_range(0, 3);
-    if (vp_bool()) { /* a sibling request in flight on it */
+    old = world_add_conn(&M_ch, best_first, existing == 2);
+    if (existing == 1 && !SIBLING) old->total_queries = vp_range(0, 3);
+    if (SIBLING) { /* a sibling request in flight on it */
       sib    = M_new_query();
       sibtok = M_ntok - 1;
       M_attach(sib, old, 1005);
-      sib->try_count = vp_range(0, 1);
     }
-    old_total = old->total_queries;
   }
-  q              = M_new_query();
-  tok            = M_ntok - 1;
-  q->using_tcp   = (M_ch.flags & ARES_FLAG_USEVC) ? ARES_TRUE : ARES_FALSE;
-  q->try_count   = vp_range(0, NSRV * 2);
-  q->no_retries  = vp_bool() ? ARES_TRUE : ARES_FALSE;
+  q            = M_new_query();
+  tok          = M_ntok - 1;
+  q->using_tcp = (M_ch.flags & ARES_FLAG_USEVC) ? ARES_TRUE : ARES_FALSE;
+  q->try_count = vp_range(0, 5);
   VP_ASSUME(q->try_count < NSRV * M_ch.tries); /* ares_requeue_query's budget check let it through */
   tries0  = q->try_count;
-  budget  = NSRV * M_ch.tries;
   writes0 = M_writes;
 
   st = ares_send_query(NULL, q, &M_now);
 
-  /* ---- C01: exactly once, nothing used after release (pointer checks), links consistent ---- */
-  M_check_links();
-  if (M_cb_count[tok] == 0) {
-    VP_ASSERT(st == ARES_SUCCESS, "a request that is still live was sent successfully");
-    VP_ASSERT(ares_htable_szvp_get_direct(M_ch.queries_by_qid, (size_t)(100 + tok)) == q, "live request still indexed");
-    VP_ASSERT(q->conn != NULL && q->node_queries_by_timeout != NULL, "a live request is in flight with a deadline registered");
-    /* C07: its deadline is now + timeout >= base timeout */
+  for (k = 0; k < RQ_calls; k++)
+    if (RQ_query[k] == q) q_requeued++;
+  VP_ASSERT(q_requeued <= 1, "a request is handed to requeue at most once per send attempt");
+  VP_ASSERT(M_writes - writes0 <= 1, "one send attempt transmits the request at most once");
+  if (q_requeued) {
+    /* the send attempt failed and was handed on: it must count against the retry budget */
+    for (k = 0; k < RQ_calls; k++)
+      if (RQ_query[k] == q) VP_ASSERT(RQ_inc[k] == ARES_TRUE && RQ_status[k] != ARES_SUCCESS, "a failed attempt consumes retry budget and carries its error");
+    VP_WITNESS("request handed to requeue");
+  } else if (M_cb_count[tok] == 0) {
+    VP_ASSERT(st == ARES_SUCCESS, "a request that is still live and not requeued was sent successfully");
+    VP_ASSERT(M_writes - writes0 == 1, "a successful send attempt transmitted the request");
+    VP_ASSERT(q->try_count == tries0, "a successful attempt does not consume retry budget");
+    VP_ASSERT(q->conn != NULL && q->node_queries_by_timeout != NULL && q->node_queries_to_conn != NULL,
+              "a sent request is in flight with a deadline registered");
+    VP_ASSERT(vsock[q->conn->fd].state == 1, "in flight on an open connection");
     VP_ASSERT(ares_timedout(&M_now, &q->timeout) == ARES_FALSE, "fresh deadline lies in the future");
-    /* C10: never on a UDP connection that already carried udp_max_queries */
+    VP_ASSERT(ares_slist_node_val(ares_slist_node_find(M_ch.queries_by_timeout, q)) != NULL, "deadline is in the timeout index");
     if (!(q->conn->flags & ARES_CONN_FLAG_TCP) && M_ch.udp_max_queries > 0)
       VP_ASSERT(q->conn->total_queries <= M_ch.udp_max_queries, "a UDP socket never carries more than udp_max_queries requests");
     VP_ASSERT(((q->conn->flags & ARES_CONN_FLAG_TCP) != 0) == (q->using_tcp == ARES_TRUE), "transport matches the request's TCP flag");
-    /* C09: a first attempt without prior failures goes to a best server */
-    if (tries0 == q->try_count) {
-      VP_ASSERT(q->conn->server->consec_failures == minf || q->conn->server == best_first || rotate,
-                "attempt goes to a server with the fewest consecutive failures");
-      if (!rotate) VP_ASSERT(q->conn->server == best_first, "without rotation: the first best server in configuration order");
-      VP_WITNESS("sent on first choice");
-    }
-    if (q->conn == old) VP_WITNESS("reused existing connection");
+    VP_ASSERT(q->conn->server->consec_failures == minf, "attempt goes to a server with the fewest consecutive failures");
+    if (!rotate) VP_ASSERT(q->conn->server == best_first, "without rotation: the first such server in configuration order");
+    if (q->conn == old) VP_WITNESS("reused existing connection"); else VP_WITNESS("opened a connection");
+    VP_WITNESS("sent");
   } else {
-    VP_ASSERT(st != ARES_SUCCESS || M_reentered, "a completed request reports a failure status (or was cancelled from a callback)");
+    VP_ASSERT(M_cb_count[tok] == 1, "completed exactly once");
+    VP_ASSERT(st != ARES_SUCCESS || M_reentered, "a request completed during the attempt reports failure (or was cancelled from a callback)");
     VP_WITNESS("request ended");
   }
-  /* ---- C06: budget ---- */
-  VP_ASSERT(M_writes - writes0 <= budget - tries0 + (sib ? budget : 0), "transmissions bounded by the remaining retry budget");
-  if (M_cb_count[tok] == 0) VP_ASSERT(q->try_count < budget, "a live request is within its retry budget");
-  /* ---- C10: descriptors ---- */
+  /* descriptors */
   for (i = 0; i < VSOCK_MAXFD; i++) {
     VP_ASSERT(vsock[i].closes <= 1, "no descriptor closed twice");
     if (vsock[i].state == 2) VP_ASSERT(vsock[i].told_watch == 0, "closed descriptor: application was told to stop watching");
@@ -100,12 +103,6 @@ void harness(void)
   }
   if (sib != NULL && M_cb_count[sibtok] == 1) VP_WITNESS("sibling completed");
   if (M_reentered) VP_WITNESS("callback re-entered cancel");
-  (void)oldfd; (void)old_total;
-
-  /* drain: a final cancel completes everything exactly once */
-  M_reenter_cancel = 0;
-  ares_cancel(&M_ch);
-  for (i = 0; i < (size_t)M_ntok; i++)
-    VP_ASSERT(M_cb_count[i] == 1, "every request completes exactly once");
+  VP_ASSERT(vp_lock_depth == 0, "channel lock balanced");
   VP_WITNESS("end");
 }
